@@ -200,7 +200,7 @@ def snap18(x):
         out = set()
         for v in x:
             if isinstance(v, (int, float)):     # bool too: False == 0 == 0.0
-                out.add(("num", float(v)))
+                out.add(("num", float(v) + 0.0))      # -0.0 == 0.0 collapse too
             else:
                 out.add(repr(snap18(v)))
         return ("set", tuple(sorted(map(repr, out))))
